@@ -3,7 +3,7 @@ use crate::ast::{
 };
 use crate::ast_to_source::{
     ChildPosition, expr_to_source, format_record_key, lambda_body_needs_parens, needs_parens,
-    needs_parens_in_binop,
+    needs_parens_in_binop, protect_statement_start,
 };
 use crate::values::LambdaArg;
 
@@ -13,7 +13,8 @@ const INDENT_SIZE: usize = 2;
 /// Format a Blots expression with intelligent line breaking
 pub fn format_expr(expr: &SpannedExpr, max_columns: Option<usize>) -> String {
     let max_cols = max_columns.unwrap_or(DEFAULT_MAX_COLUMNS);
-    format_expr_impl(expr, max_cols, 0)
+    // The result is used as a statement
+    protect_statement_start(format_expr_impl(expr, max_cols, 0))
 }
 
 /// Internal formatting implementation with indentation tracking
@@ -644,7 +645,11 @@ fn format_do_block_multiline(
         // Expression
         result.push('\n');
         result.push_str(&indent_str);
-        result.push_str(&format_expr_impl(&stmt.node, max_cols, inner_indent));
+        result.push_str(&protect_statement_start(format_expr_impl(
+            &stmt.node,
+            max_cols,
+            inner_indent,
+        )));
         // Trailing comment
         if let Some(trailing) = &stmt.trailing {
             result.push_str("  ");
